@@ -221,12 +221,38 @@ func WalkExpr(v ssa.Value, f func(ssa.Value) bool) {
 		case *ssa.ChangeInterface:
 			rec(x.X, d+1)
 		case *ssa.Extract:
+			if cl, ok := x.Tuple.(*ssa.Call); ok {
+				if g := TransparentCallee(cl); g != nil {
+					for _, r := range returnsOf(g) {
+						if x.Index < len(r.Results) {
+							rec(r.Results[x.Index], d+1)
+						}
+					}
+				}
+			}
 			rec(x.Tuple, d+1)
+		case *ssa.Parameter:
+			// parameter of a transparent helper: the arguments of its call sites
+			for _, a := range transparentArgs(x) {
+				rec(a, d+1)
+			}
+		case *ssa.FreeVar:
+			// captured variable of a function literal: the binding at its creation
+			if b := freeVarBinding(x); b != nil {
+				rec(b, d+1)
+			}
 		case *ssa.Phi:
 			for _, e := range x.Edges {
 				rec(e, d+1)
 			}
 		case *ssa.Call:
+			if g := TransparentCallee(x); g != nil {
+				for _, r := range returnsOf(g) {
+					if len(r.Results) == 1 {
+						rec(r.Results[0], d+1)
+					}
+				}
+			}
 			for _, a := range x.Common().Args {
 				rec(a, d+1)
 			}
@@ -449,4 +475,72 @@ func (p *Prog) SitesInl(fn *ssa.Function, m Matcher) []Site {
 		}
 	}
 	return out
+}
+
+func returnsOf(g *ssa.Function) []*ssa.Return {
+	var out []*ssa.Return
+	for _, b := range g.Blocks {
+		if b == g.Recover || len(b.Instrs) == 0 {
+			continue
+		}
+		if r, ok := b.Instrs[len(b.Instrs)-1].(*ssa.Return); ok {
+			out = append(out, r)
+		}
+	}
+	return out
+}
+
+// curProg is the program being analysed (static caller index for parameters of transparent helpers).
+var curProg *Prog
+
+// transparentArgs: the actual arguments bound to parameter x at the transparent call sites of its function.
+func transparentArgs(x *ssa.Parameter) []ssa.Value {
+	g := x.Parent()
+	if g == nil || curProg == nil {
+		return nil
+	}
+	idx := -1
+	for i, p := range g.Params {
+		if p == x {
+			idx = i
+		}
+	}
+	if idx < 0 {
+		return nil
+	}
+	var out []ssa.Value
+	for _, cs := range curProg.StaticCallers(g) {
+		in, ok := cs.Instr.(*ssa.Call)
+		if !ok || TransparentCallee(in) != g {
+			continue
+		}
+		if idx < len(in.Common().Args) {
+			out = append(out, in.Common().Args[idx])
+		}
+	}
+	return out
+}
+
+func freeVarBinding(x *ssa.FreeVar) ssa.Value {
+	cl := x.Parent()
+	if cl == nil || cl.Parent() == nil {
+		return nil
+	}
+	idx := -1
+	for i, fv := range cl.FreeVars {
+		if fv == x {
+			idx = i
+		}
+	}
+	if idx < 0 {
+		return nil
+	}
+	for _, b := range cl.Parent().Blocks {
+		for _, in := range b.Instrs {
+			if mc, ok := in.(*ssa.MakeClosure); ok && mc.Fn == ssa.Value(cl) && idx < len(mc.Bindings) {
+				return mc.Bindings[idx]
+			}
+		}
+	}
+	return nil
 }
